@@ -2,7 +2,7 @@ import Pyunicorn.Model.Proto
 import Pyunicorn.Model.Geo
 /-! Line-protocol driver for C12 (grid geometry).
 
-Exact requests (`Rat`): `cosang`, `eucl2`, `gridnn`, `rect`.
+Exact requests (`Rat`): `cosang`, `eucl2`, `gridnn`, `rect`, `convlon`, `maxld`, `ald`.
 Floating requests (`Float`, answers as IEEE-754 bit patterns): `angdist`,
 `eucld`, `geonn`, `weights`, `awc`. -/
 open Pyunicorn Pyunicorn.Proto Pyunicorn.Geo
@@ -32,6 +32,9 @@ def showOptNat : Option Nat → String
 
 def showOptInts (xs : List (Option Int)) : String :=
   if xs.isEmpty then "-" else join (xs.map fun | some v => toString v | none => "none")
+
+def showOptRats (xs : List (Option Rat)) : String :=
+  if xs.isEmpty then "-" else join (xs.map fun | some v => showRat v | none => "none")
 
 def wtype (s : String) : WType :=
   if s == "surface" then .surface else if s == "irrigation" then .irrigation else .none
@@ -69,6 +72,22 @@ def answer (toks : List String) : String :=
       let N := n.toNat!
       showFloats ((List.range N).map
         (AWC trigF (dir == "1") (vec (floats lat)) (mat (floatMat a)) N))
+  -- `GeoGrid.convert_lon_coordinates` on a grid of `n` nodes (exact)
+  | ["convlon", n, lon] =>
+      match convertLon n.toNat! (rats lon) with
+      | some out => showRats out
+      | none => "raise:IndexError"
+  -- `max_link_distance` from the distance matrix and the adjacency matrix (exact)
+  | ["maxld", n, d, a] =>
+      let N := n.toNat!
+      showOptRats ((List.range N).map (maxLinkDistNet (mat (ratMat d)) (mat (ratMat a)) N))
+  -- `(in|out|)average_link_distance(geometry_corrected)`; mode in|out|dir|undir (exact)
+  | ["ald", mode, corr, n, d, a] =>
+      let N := n.toNat!
+      let f := if mode == "in" then inALD (α := Rat) else if mode == "out" then outALD (α := Rat)
+        else avgALD (α := Rat) (mode == "dir")
+      showOptRats ((List.range N).map
+        (f (mat (ratMat d)) (mat (ratMat a)) N (N : Rat) (corr == "1")))
   | _ => "bad-request"
 
 def main : IO Unit := runDriver answer
